@@ -362,16 +362,19 @@ func checkC20(c *c20Case) error {
 	if ee, ok := runErr.(*exec.ExitError); ok && ee.ExitCode() == 2 && strings.Contains(stderr.String(), "panic:") {
 		return fmt.Errorf("xsel %q crashed: %s", c.argv(), firstLine(stderr.String()))
 	}
+	// every input that cannot be processed produces a diagnostic on stderr
+	// (the wording is the tool's own: only its presence is required; whether it
+	// names the input is recorded as a class, not demanded)
+	if len(exp.diagnosed) > 0 && strings.TrimSpace(stderr.String()) == "" {
+		return fmt.Errorf("xsel %q: %v could not be processed but nothing was written to stderr", c.argv(), exp.diagnosed)
+	}
 	for _, p := range exp.diagnosed {
-		if p == "stdin" || p == "-" {
-			if !strings.Contains(stderr.String(), "stdin") {
-				return fmt.Errorf("xsel %q: no diagnostic about stdin on stderr: %q", c.argv(), stderr.String())
-			}
-			continue
+		if p != "stdin" && p != "-" && strings.Contains(stderr.String(), p) {
+			st.Class("diagnostic names the input")
 		}
-		if !strings.Contains(stderr.String(), p) {
-			return fmt.Errorf("xsel %q: %s could not be processed but stderr does not name it: %q", c.argv(), p, stderr.String())
-		}
+	}
+	if n := strings.Count(stderr.String(), "\n"); n < len(exp.diagnosed) {
+		return fmt.Errorf("xsel %q: %d inputs could not be processed (%v) but stderr has only %d lines: %q", c.argv(), len(exp.diagnosed), exp.diagnosed, n, stderr.String())
 	}
 	if !c.M {
 		if stdout.String() != exp.stdout {
